@@ -72,7 +72,7 @@ KNOWN = {'protocols/haproxy/_v1parser.py': {'V1Parser': ['__init__', 'feed', 'pa
 def _views(ctx):
     v = ctx.__dict__.get("_views_d")
     if v is None:
-        v = ctx.__dict__["_views_d"] = Views(ctx, KNOWN)
+        v = ctx.__dict__["_views_d"] = Views(ctx, KNOWN, extended=True)
     return v
 
 
@@ -540,6 +540,11 @@ def _segmentation(ctx):
 
 
 def check(ctx):
+    from sa.props._lib_d import Guarded
+    _check(Guarded(ctx, RULE_KINDS))
+
+
+def _check(ctx):
     K = {}
     wr = []          # becomes non-empty once the wrapper's anchors were read
     with ctx.section("protocol constants"):
@@ -838,6 +843,11 @@ def check(ctx):
                      "closes the connection through the transport: " + "; ".join(sorted(set(loose))[:8]))
 
     _segmentation(ctx)
+    # the wrapper's structural rules are anchored on attribute names (_parser, _undecided, ...); their clauses are also decided by driving the wrapper
+    # over whole and segmented streams, which depends on no name
+    from sa.props._lib_d import abstain_where_twinned
+    abstain_where_twinned(ctx, ["wrapper anchors", "wrapper ordering", "sniff, structural layer"], ["segmentation", "sniffing"],
+                          ["segmentation/", "sniff/version-dispatch", "sniff/garbage-rejected", "sniff/valid-prefix-rejected"], 40)
 
 
 _SNIFF_OLD = ("            if (\n                len(data) >= 16\n                and data[:12] == V2Parser.PREFIX\n                and ord(data[12:13]) & 0b11110000 == 0x20\n            ):\n"
@@ -923,6 +933,31 @@ MUTANTS = [
            expect_rule="v1table/allowed-protocols"),
 ]
 SILENT = [
+    Silent("sniff-in-static-helper-that-raises-for-garbage", W,
+           "            if (\n                len(data) >= 16\n                and data[:12] == V2Parser.PREFIX\n                and ord(data[12:13]) & 0b11110000 == 0x20\n            ):\n"
+           "                self._parser = parser = V2Parser()\n            elif len(data) >= 8 and data[:5] == V1Parser.PROXYSTR:\n                self._parser = parser = V1Parser()\n"
+           "            elif (len(data) < 16 and data[:12] == V2Parser.PREFIX[: len(data)]) or (\n                len(data) < 8 and data[:5] == V1Parser.PROXYSTR[: len(data)]\n            ):\n"
+           "                # So far this is the beginning of a PROXY protocol signature,\n                # but the segment was too short to decide; wait for more.\n                self._undecided = data\n                return None\n            else:\n                self.loseConnection()\n                return None\n",
+           "            try:\n                parserClass = self._parserFor(data)\n            except InvalidProxyHeader:\n                self.loseConnection()\n                return None\n"
+           "            if parserClass is None:\n                self._undecided = data\n                return None\n            self._parser = parser = parserClass()\n",
+           more=[(W, "    def getPeer(self) -> interfaces.IAddress:",
+                  "    @staticmethod\n    def _parserFor(data):\n        seen = len(data)\n        if seen >= 16 and data[:12] == V2Parser.PREFIX and ord(data[12:13]) & 0b11110000 == 0x20:\n            return V2Parser\n"
+                  "        if seen >= 8 and data[:5] == V1Parser.PROXYSTR:\n            return V1Parser\n"
+                  "        if (seen < 16 and data[:12] == V2Parser.PREFIX[:seen]) or (seen < 8 and data[:5] == V1Parser.PROXYSTR[:seen]):\n            return None\n"
+                  "        raise InvalidProxyHeader()\n\n    def getPeer(self) -> interfaces.IAddress:")]),
+    Silent("sniff-state-in-a-small-slots-class", W, "        self._parser: Union[V2Parser, V1Parser, None] = None\n        # The first bytes of the connection, for as long as there are too few\n        # of them to tell which version of the PROXY protocol is in use.\n        self._undecided = b\"\"\n",
+           "        self._sniff = _Sniffing()\n",
+           more=[(W, "        parser = self._parser\n        if parser is None:\n            data = self._undecided + data\n            self._undecided = b\"\"\n",
+                  "        parser = self._sniff.parser\n        if parser is None:\n            data = self._sniff.held + data\n            self._sniff.held = b\"\"\n"),
+                 (W, "                self._parser = parser = V2Parser()\n", "                self._sniff.parser = parser = V2Parser()\n"),
+                 (W, "                self._parser = parser = V1Parser()\n", "                self._sniff.parser = parser = V1Parser()\n"),
+                 (W, "                self._undecided = data\n                return None\n", "                self._sniff.held = data\n                return None\n"),
+                 (W, "class HAProxyProtocolWrapper(policies.ProtocolWrapper):", "class _Sniffing:\n    __slots__ = (\"parser\", \"held\")\n\n    def __init__(self):\n        self.parser = None\n        self.held = b\"\"\n\n\nclass HAProxyProtocolWrapper(policies.ProtocolWrapper):")]),
+    Silent("v1-feed-split-by-unpacking-with-valueerror", V1,
+           "        lines = (self.buffer).split(self.NEWLINE, 1)\n        if not len(lines) > 1:\n            return (None, None)\n        self.buffer = b\"\"\n"
+           "        remaining = lines.pop()\n        header = lines.pop()\n        info = self.parse(header)\n        return (info, remaining)\n",
+           "        try:\n            header, remaining = self.buffer.split(self.NEWLINE, 1)\n        except ValueError:\n            return (None, None)\n        self.buffer = b\"\"\n"
+           "        return (self.parse(header), remaining)\n"),
     Silent("F47-fix-respelled-wait-test-in-a-helper", W,
            "            elif (len(data) < 16 and data[:12] == V2Parser.PREFIX[: len(data)]) or (\n                len(data) < 8 and data[:5] == V1Parser.PROXYSTR[: len(data)]\n            ):\n",
            "            elif self._mayStillBeAHeader(data):\n",
